@@ -46,7 +46,7 @@ PLAN = {
     'quick': [('full', 3), ('core', 4)],
     'thorough': [('full', 3), ('core', 5), ('search', 5)],
     'edit-quick': [('full', 2), ('core', 2), ('twin', 3)],
-    'edit-thorough': [('full', 2), ('core', 4), ('twin', 4)],
+    'edit-thorough': [('full', 2), ('core', 3), ('twin', 4)],
     'search-quick': [('full', 2), ('core', 3), ('search', 4)],
     'search-thorough': [('full', 2), ('core', 4), ('search', 5)],
     'nav-quick': [('full', 2), ('core', 4), ('search', 3)],
